@@ -58,6 +58,23 @@ class Run:
                 self.info.setdefault('enqueue-exc', []).append(type(e).__name__)
         f = c.get('fault')
         fired = True
+        if c.get('forced'):
+            # the worker is stuck in its last input; a consumer thread is already blocked on the stream when the caller stops the
+            # worker by force (the child is killed: whoever reports its death, the stream must end for the blocked consumer too)
+            from simos.sync import Thread as SimThread
+            th = SimThread(target=self._consume, args=(w,))
+            th.start()
+            s.sleep(c['forced'])
+            s.fault('forced-terminate-with-blocked-consumer')
+            r = lib.call_with_deadline(w.terminate, 600.0, timeout=0.3, force=True)
+            self.info['terminate'] = r[0]
+            th.join(700.0)
+            if th.is_alive() and not self.end:
+                self.end = ['hung', None]
+                self.info['blocked'] = s.blocked_report()[:6]
+                return
+            self._after(w)
+            return
         if f:
             fired = s.gate_wait('fault', timeout=10.0)
             self.info['fault-fired'] = fired
@@ -71,6 +88,14 @@ class Run:
                 w.close()
             except Exception as e:   # noqa
                 self.info['close-exc'] = type(e).__name__
+        self._consume(w)
+        if self.end and self.end[0] == 'hung':
+            return
+        self._after(w)
+
+    def _consume(self, w):
+        from simos.mpshim import wait as mpwait
+        s, c = self.sim, self.case
         cons = c['consumer']
         if cons == 'next':
             while True:
@@ -114,7 +139,10 @@ class Run:
                 self.got.append(val)
         if self.end and self.end[0] == 'hung':
             self.info['blocked'] = s.blocked_report()[:6]
-            return
+
+    def _after(self, w):
+        s, c = self.sim, self.case
+        cons = c['consumer']
         # after the end of the stream, once the worker is observed dead, the stream stays ended and never blocks
         r = lib.call_with_deadline(w.wait, 600.0, timeout=5)
         self.info['wait'] = [r[0], r[1] if r[0] == 'ok' else type(r[1]).__name__]
@@ -142,7 +170,7 @@ class Run:
             return V
         expected = []
         for x in c['items']:
-            if x in c['poison'] or x in (c.get('origin_only') or []):
+            if x in c['poison'] or x in (c.get('origin_only') or []) or isinstance(x, dict):
                 break       # (a result the parent cannot rebuild ends the stream of a remote worker like a failure does)
             expected.append(['r', x])
         got = self.got
@@ -150,7 +178,7 @@ class Run:
         if got != expected[:len(got)]:
             kind = 'duplicate' if any(got.count(g) > 1 for g in got) else ('reordered' if sorted(map(str, got)) == sorted(map(str, expected[:len(got)])) else 'foreign-or-corrupt')
             V.append({'clause': 'correct-prefix', 'manifestation': f'{cons}:not-a-prefix:{kind}', 'detail': {'got': got, 'expected': expected}})
-        if not c.get('fault') and not self.info.get('enqueue-exc') and len(got) != len(expected):
+        if not c.get('fault') and not c.get('forced') and not self.info.get('enqueue-exc') and len(got) != len(expected):
             V.append({'clause': 'correct-prefix', 'manifestation': f'{cons}:fault-free-run-lost-results', 'detail': {'got': got, 'expected': expected}})
         end = self.end or ['none', None]
         cause = C.cause(s)
@@ -275,7 +303,12 @@ def plan(ctx):
                 fault = {'kind': fk, 'thread': tname, 'ndp': rng.randrange(1, dpts[-1][3] * scale + 5)}
             elif lpts:
                 fault = {'kind': fk, 'thread': tname, 'nline': rng.randrange(1, lpts[-1][3] * scale + 5)}
-        rc.append(mk_case(ctx, kind, items, rng.choice(['next', 'iter', 'mux']), i, fault=fault, poison=poison, policy=pol, knobs=knobs, tag='random', origin_only=unb))
+        cs = mk_case(ctx, kind, items, rng.choice(['next', 'iter', 'mux']), i, fault=fault, poison=poison, policy=pol, knobs=knobs, tag='random', origin_only=unb)
+        if kind != 'pthread' and rng.random() < 0.12:
+            cs['fault'] = None
+            cs['items'] = list(items) + [{'$swallow': True}]
+            cs['forced'] = rng.choice([0.05, 0.3, 1.0])
+        rc.append(cs)
         if len(rc) >= 2000:
             ctx.run(rc, 'random')
             rc = []
